@@ -29,6 +29,14 @@ def neighbours():
             out.add(v ^ (1 << a))
             for b in range(a + 1, 16):
                 out.add(v ^ (1 << a) ^ (1 << b))
+        # the known code with its bytes or nibbles transposed / rotated (what a typo in a table produces)
+        h = code.hex()
+        for t in (h[2:] + h[:2], h[1:] + h[:1], h[3:] + h[:3], h[0] + h[2] + h[1] + h[3], h[1] + h[0] + h[2:], h[:2] + h[3] + h[2], h[::-1]):
+            out.add(int(t, 16))
+        out.add((v + 1) & 0xFFFF)
+        out.add((v - 1) & 0xFFFF)
+        out.add((v + 0x100) & 0xFFFF)
+        out.add((v - 0x100) & 0xFFFF)
     return sorted(x for x in out if x.to_bytes(2, "big") not in KNOWN)
 
 
